@@ -38,7 +38,7 @@ def check(c):
     c.cov["traces_validated_against_impl"] += s["cases"]
     c.cov["samples"] += (s["samples"] or [])[:2]
     c.cov["exhaustive"] = True
-    n = 400000 if thorough else 40000
+    n = 400000 if thorough else 24000
     shard = 50000
     done = k = 0
     while done < n:
